@@ -20,7 +20,8 @@ RULE = ("all interleavings (at loads/stores of __coords/__precompute of shared o
         "(table built lazily by the first multiplication), table already built}, on two prime-order toy curves; DFS with "
         "hashing of (cells, per-thread read history); key level: all pairs of {precompute, precompute(lazy), verify_digest, "
         "to_string, point.x, point*k, pickle} on one shared VerifyingKey (the point object swapped in by precompute becomes "
-        "a shared object when published); thorough: 3 threads with <= 2 preemptions; a schedule is distinct by "
+        "a shared object when published); 3 threads with <= 2 preemptions: 12 delicate triples (quick), 160 random triples "
+        "(thorough); a schedule is distinct by "
         "(operations, variant, choice list); every modelled pair is also replayed on the Lean model step by step")
 ASSUMPTIONS = ["one load or store of an attribute and the construction of a tuple are atomic under the GIL (trusted base); "
                "the model cannot exhibit a torn reference",
@@ -132,13 +133,14 @@ def jac(toy, aff, z):
 
 class Scenario:
     """shared objects: P (id 0: the object under test, in the given variant), Q (id 1: another point, plain, z = 3),
-    R (id 2: the same point as P with z = 5, plain)"""
+    R (id 2: the same point as P with z = 5, plain), S (id 3: -P, z = 4, plain)"""
 
     def __init__(self, toy, variant):
         self.toy, self.variant = toy, variant
         self.Pc = jac(toy, affine_mul(toy, 2), 2)
         self.Qc = jac(toy, affine_mul(toy, 5), 3)
         self.Rc = jac(toy, affine_mul(toy, 2), 5)      # the same point as P in another representation
+        self.Sc = jac(toy, affine_mul(toy, toy.n - 2), 4)   # -P (so that P + S is the identity: fall-back path of mul_add)
 
     def make(self):
         from ecdsa import ellipticcurve as E
@@ -150,13 +152,15 @@ class Scenario:
             P._maybe_precompute()
         Q = E.PointJacobi(c, self.Qc[0], self.Qc[1], self.Qc[2], t.n, False)
         R = E.PointJacobi(c, self.Rc[0], self.Rc[1], self.Rc[2], t.n, False)
-        return [P, Q, R]
+        S = E.PointJacobi(c, self.Sc[0], self.Sc[1], self.Sc[2], t.n, False)
+        return [P, Q, R, S]
 
     def obj_tokens(self):
         t = self.toy
         gen = 1 if self.variant != "plain" else 0
-        return "%d,%d,%d,%d,%d,%s|%d,%d,%d,%d,0,E|%d,%d,%d,%d,0,E" % (
-            self.Pc + (t.n, gen, "F" if self.variant == "table" else "E") + self.Qc + (t.n,) + self.Rc + (t.n,))
+        return "%d,%d,%d,%d,%d,%s|%d,%d,%d,%d,0,E|%d,%d,%d,%d,0,E|%d,%d,%d,%d,0,E" % (
+            self.Pc + (t.n, gen, "F" if self.variant == "table" else "E") + self.Qc + (t.n,) + self.Rc + (t.n,)
+            + self.Sc + (t.n,))
 
     def curve_tokens(self):
         return "%d %d %d" % (self.toy.p, self.toy.a, self.toy.b)
@@ -240,7 +244,12 @@ def operations(toy):
         "double": (lambda o: o[0].double(), "double:0"),
         "neg": (lambda o: -o[0], "neg:0"),
         "mul": (lambda o: o[0] * 5, "mul:0:5"),
-        "mul_add": (lambda o: o[0].mul_add(3, o[1], 4), None),
+        "mul_add": (lambda o: o[0].mul_add(3, o[1], 4), "mul_add:0:3:1:4"),
+        "mul_add1": (lambda o: o[0].mul_add(1, o[1], 1), "mul_add:0:1:1:1"),
+        "mul_add_self": (lambda o: o[0].mul_add(1, o[0], 2), "mul_add:0:1:0:2"),
+        "mul_add_neg11": (lambda o: o[0].mul_add(1, o[3], 1), "mul_add:0:1:3:1"),
+        "mul_add_neg21": (lambda o: o[0].mul_add(2, o[3], 1), "mul_add:0:2:3:1"),
+        "mul_add_neg23": (lambda o: o[0].mul_add(2, o[3], 3), "mul_add:0:2:3:3"),
         "pickle": (lambda o: pickle.loads(pickle.dumps(o[0])), None),
         "getstate": (lambda o: o[0].__getstate__(), "getstate:0"),
         "verify": (_verify_op(toy), None),
@@ -251,7 +260,7 @@ def operations(toy):
 
 
 CORE_OPS = ["x", "y", "scale", "to_affine", "eq", "add", "double", "neg", "mul", "mul_add", "pickle", "verify"]
-EXTRA_OPS = ["getstate", "selfadd", "rmul", "ne"]
+EXTRA_OPS = ["getstate", "selfadd", "rmul", "ne", "mul_add1", "mul_add_self", "mul_add_neg11", "mul_add_neg21", "mul_add_neg23"]
 
 
 # ------------------------------------------------------------------------------------------------
@@ -578,6 +587,15 @@ def _all_results(ctx):
         for i, a in enumerate(KEY_OPS):
             for b in KEY_OPS[i:]:
                 tasks.append((ti, "key", (a, b), 400 if ctx.quick else 3000, None, False))
+    # the most delicate triples (a rescaling / a lazy table construction racing with two readers), 3 threads, <= 2 preemptions
+    DELICATE = [("x", "scale", "to_affine"), ("scale", "scale", "eq"), ("mul", "mul", "getstate"), ("mul", "to_affine", "x"),
+                ("add", "scale", "scale"), ("mul_add", "scale", "mul"), ("mul", "mul", "mul"), ("eq", "to_affine", "double"),
+                ("pickle", "mul", "scale"), ("verify", "scale", "mul"), ("mul_add_neg11", "scale", "x"),
+                ("selfadd", "to_affine", "mul")]
+    if ctx.quick:
+        for t in DELICATE:
+            for variant in VARIANTS:
+                tasks.append((0, variant, t, 600, 2, False))
     if not ctx.quick:
         names = CORE_OPS
         trip = [(a, b, c) for a in names for b in names for c in names if a <= b <= c]
